@@ -101,7 +101,7 @@ PROPS = {
         trusted_base=TB_COMMON + ["tools/extract accessors: typed Go expression -> Acc.E (literal transcription; GetBitMask inlined from its own body)",
                                    "Spec/AccessorLayout.lean + spec/accessor_layout.json: the Row/sBit/len annotations at the pinned commit (TS 24.501 figure layouts)",
                                    "Buffer-backed accessors: theorems assume the Buffer is long enough to contain the field's rows (a shorter Buffer makes the Go accessor panic)"],
-        rule="every accessor pair x (all-zero / all-one / random prior contents) x (0, max, field-width boundary, random values); thorough: exhaustive 256x256 per single-octet 8-bit-typed field; non-trivial = distinct op executed; the text pair DNN.SetDNN/GetDNN (op accs: dotted texts with empty labels, labels of 61..64 and coded lengths of 98..101 octets); the identifier / length accessors of array-backed elements (op accl: SetLen / SetIei leave the contents alone)",
+        rule="every accessor pair x (all-zero / all-one / random prior contents) x (0, max, field-width boundary, random values); thorough: exhaustive 256x256 per single-octet 8-bit-typed field; non-trivial = distinct op executed; the text pair DNN.SetDNN/GetDNN (op accs: dotted texts with empty labels, labels of 61..64 and coded lengths of 98..101 octets); the identifier / length accessors of array-backed elements (op accl: SetLen / SetIei leave the contents alone); slice-typed setters called with a window of the element's own contents (op accra)",
     ),
     "C04": dict(
         level="proof", modules=CODEC_MODS + ["NasVerif.Props.C04"], parts=["Codec"],
@@ -188,7 +188,7 @@ PROPS = {
         trusted_base=TB_COMMON[:1] + ["hand-written Model/UePolicy.lean mirrors the uePolicyContainer package (nested length-prefixed parsers over bytes.Buffer.Next with uint16 length arithmetic that wraps, io.EOF ending every list walker, marshalers that recompute lengths); tied by the correspondence run",
                                         "encoding/binary / bytes.Buffer semantics modelled (Model/Qos.lean readers + readBytes)",
                                         "tools/harness/uepolicy.go: independent Annex-D encoders for wire inputs; the PLMN oracle compares SetPlmnDigit with nasConvert.PlmnIDToNas and the TS 24.008 layout"],
-        rule="three decoders: every input of length 0..1, length 2 sampled (thorough: all 65 536), random 3..16 octets biased to small length fields; well-formed lists (0..3 sublists x 0..3 instructions x 0..3 parts, empty and 300-octet contents) whole, truncated at every octet, every 16-bit window set to 0/1/2/3/0xffff, mutated, and wrapped as command / reject messages; results likewise; messages built through the API and header/body mismatches; all 256 message types; PLMN setters of sublist and sub-result for every MCC 100..999 x 7 MNCs (thorough: all 990) and values around the accepted range; non-trivial = distinct op answered with a value; descriptions built through the construction API only (ops upc apil / apir / apim: constructors, setters, appenders, SetLen_byContent, SetPlmnDigit incl. values around its accepted range, SetNSSUI 0/1/other) and read back through the getters",
+        rule="three decoders: every input of length 0..1, length 2 sampled (thorough: all 65 536), random 3..16 octets biased to small length fields; well-formed lists (0..3 sublists x 0..3 instructions x 0..3 parts, empty and 300-octet contents) whole, truncated at every octet, every 16-bit window set to 0/1/2/3/0xffff, mutated, and wrapped as command / reject messages; results likewise; messages built through the API and header/body mismatches; all 256 message types; PLMN setters of sublist and sub-result for every MCC 100..999 x 7 MNCs (thorough: all 990) and values around the accepted range; non-trivial = distinct op answered with a value; descriptions built through the construction API only (ops upc apil / apir / apim: constructors, setters, appenders, SetLen_byContent, SetPlmnDigit incl. values around its accepted range, SetNSSUI 0/1/other, SetPlmnDigit twice on one object, bodies of 33 000..65 000 octets) and read back through the getters",
     ),
     "C10": dict(
         level="proof", modules=CODEC_MODS + ["NasVerif.Props.C10"], parts=["Codec"],
